@@ -228,3 +228,14 @@ def ob_d(ob):
     ob.encodes(MD.Molecular_Dynamics_Langevin.set_dof, MD.XL_BOMD.set_dof, MD.Molecular_Dynamics_Basic.set_dof, MD.Molecular_Dynamics_Basic._calc_temperature)
     ob.bound("same table as C08.d (9 engine/damp/remove_com combinations, padded batch, symbolic velocities and masses)")
     dof_temperature(ob, "d")
+
+
+# ---- shared obligation: the mean kinetic temperature equals the target only under the true number of degrees of freedom, which starts from the number of real atoms ----
+from . import C13 as _C13_mod  # noqa: E402
+
+
+@obligation(PID, "e", title="[shared with C13.e] " + [e for e in __import__("engine.ob", fromlist=["REGISTRY"]).REGISTRY["C13"] if e[1] is _C13_mod.ob_e][0][3])
+def ob_e_shared(ob):
+    """the mean kinetic temperature equals the target only under the true number of degrees of freedom, which starts from the number of real atoms"""
+    ob.note("this obligation is the one registered as C13.e; it is also decided here because the mean kinetic temperature equals the target only under the true number of degrees of freedom, which starts from the number of real atoms")
+    _C13_mod.ob_e(ob)
